@@ -271,10 +271,29 @@ fn gen_impl_delegation_trait_defs(
                     continue;
                 }
 
+                // What a method borrows from `&self` (the `Impl<T>`) is borrowed from `__impl` here,
+                // `&self` is the delegation target:
+                let receiver_lifetime = match trait_fn.entrait_sig.sig.inputs.first_mut() {
+                    Some(syn::FnArg::Receiver(syn::Receiver {
+                        reference: Some((_, lifetime)),
+                        ty,
+                        ..
+                    })) => {
+                        if let syn::Type::Reference(reference) = ty.as_mut() {
+                            reference.lifetime = None;
+                        }
+                        lifetime.take()
+                    }
+                    _ => None,
+                };
+                let impl_lifetime = receiver_lifetime.or_else(|| {
+                    crate::signature::name_elided_output_lifetimes(&mut trait_fn.entrait_sig.sig)
+                });
+
                 trait_fn.entrait_sig.sig.inputs.insert(
                     1,
                     syn::parse_quote! {
-                        __impl: &::#entrait::Impl<EntraitT>
+                        __impl: & #impl_lifetime ::#entrait::Impl<EntraitT>
                     },
                 );
             }
